@@ -142,11 +142,28 @@ pub fn lex(source: &str, source_filename: &str) -> Vec<LexedToken>
 {
 	let mut tokens = Vec::new();
 	let mut offset = 0;
+	let mut remaining = source;
 	for (i, line) in source.lines().enumerate()
 	{
 		// Syntax should remain such that each line can be lexed independently.
 		lex_line(line, source_filename, offset, 1 + i, &mut tokens);
-		offset += line.chars().count() + 1;
+		// Advance past the line and its terminator, which is either "\n"
+		// or "\r\n" (or nothing at the end of the file).
+		remaining = &remaining[line.len()..];
+		let terminator = if remaining.starts_with("\r\n")
+		{
+			2
+		}
+		else if remaining.starts_with('\n')
+		{
+			1
+		}
+		else
+		{
+			0
+		};
+		remaining = &remaining[terminator..];
+		offset += line.chars().count() + terminator;
 	}
 	if source.len() == 0
 	{
